@@ -20,7 +20,7 @@ open HalmosVerif.Props.C01 (exCode exEnv exI exI_std exP exW exF0 exR exOracle e
 /-- **C10.flagged.** (the contrapositive packaging of `C02.complete`) -/
 theorem flagged {s : Simp} (hs : SimpSound s) {o : Oracle} (ho : OracleSound o) (cfg : Cfg) (env : Env)
     (code : List Nat) (fuel : Nat) (p : Evm.Params) (w : Evm.World) (hmem : cfg.maxMem + 32 ≤ p.memLimit)
-    (I : Interp) (hI : I.Std) (f0 : Evm.Frame)
+    (hcode : ∀ b ∈ code, b < 256) (I : Interp) (hI : I.Std) (f0 : Evm.Frame)
     (hR0 : R I env code p initState f0) (n : Nat) (w' : Evm.World) (h : Evm.Halt)
     (hex : Evm.exec p n w f0 = some (w', h)) (hne : h ≠ .stackOverflow)
     (hb : (run s o cfg env code fuel).boundedLoops = []) (hd : (run s o cfg env code fuel).depthCut = false)
@@ -29,7 +29,7 @@ theorem flagged {s : Simp} (hs : SimpSound s) {o : Oracle} (ho : OracleSound o) 
       (∀ r, e.out ≠ .stuck r) ∧ e.tag = .normal) :
     ∃ e ∈ (run s o cfg env code fuel).ends, Sat I e.st.path ∧ e.tag = .normal ∧
       ∃ h0, e.out = .halt h0 ∧ haltWith h0 (e.data.map (·.eval I)) = h := by
-  rcases C02.complete hs ho cfg env code fuel p w hmem I hI f0 hR0 n w' h hex hne with
+  rcases C02.complete hs ho cfg env code fuel p w hmem hcode I hI f0 hR0 n w' h hex hne with
     ⟨e, hm, hsat, hc⟩ | hb' | hd' | hf'
   · obtain ⟨hns, htag⟩ := herr e hm hsat
     rcases hc with ⟨h0, ho', hw, _⟩ | ⟨r, hr⟩ | ht
@@ -168,7 +168,7 @@ example : ∃ e ∈ exRes.ends, Sat exI e.st.path ∧ e.tag = .normal ∧
     obtain ⟨h1, h2⟩ := this e hm
     refine ⟨fun r hr => ?_, h2⟩
     rw [hr] at h1; cases h1
-  exact flagged foldSimp_sound oracleSound_unknown {} exEnv exCode 100 exP exW C01.exMem exI exI_std exF0 exR 10 w'
+  exact flagged foldSimp_sound oracleSound_unknown {} exEnv exCode 100 exP exW C01.exMem (by decide) exI exI_std exF0 exR 10 w'
     .invalidOpcode hex (by decide) (by decide +kernel) (by decide +kernel) (by decide +kernel)
     (fun e hm _ => hall e hm)
 
